@@ -272,7 +272,9 @@ func (c *stepCtx) judge() {
 		return
 	}
 	if !op.mutating() {
-		c.judgeReadOnly()
+		if !c.faulted {
+			c.judgeReadOnly()
+		}
 		return
 	}
 
@@ -752,7 +754,7 @@ func (c *stepCtx) styleCheck(before, after string, c03 *c03Result, mo *MOutcome)
 		}
 		if op.Kind == "stop" {
 			// continuation lines of the closed entry: twice the record's own indentation
-			if target != nil && target.Indent != "" && ws != target.Indent+target.Indent {
+			if target != nil && target.Indent != "" && !strings.HasPrefix(ws, target.Indent+target.Indent) {
 				return &Verdict{Rule: "style-indentation", Site: op.Kind, Detail: fmt.Sprintf("summary line %q is indented with %q, the record uses %q twice", l.Text, ws, target.Indent)}
 			}
 			continue
@@ -764,7 +766,7 @@ func (c *stepCtx) styleCheck(before, after string, c03 *c03Result, mo *MOutcome)
 			}
 			continue
 		}
-		if ws != unit && ws != unit+unit {
+		if ws != unit && !strings.HasPrefix(ws, unit+unit) {
 			return &Verdict{Rule: "style-indentation", Site: op.Kind, Detail: fmt.Sprintf("added line %q is indented with %q, the entry started with %q", l.Text, ws, unit)}
 		}
 	}
